@@ -149,6 +149,7 @@ Definition entry_demands (s : str) (got : option triple) : bool :=
   match spec_entry s, got with
   | SDirect, Some t => triple_eqb t (b "DIRECT", [], [])
   | SProxy kw h p, Some t => triple_eqb t (kw, h, p)
+  | SUnknown _ h p, Some t => triple_eqb t (b "DIRECT", h, p)
   | SMalformed, None => true
   | _, _ => false
   end.
